@@ -60,7 +60,7 @@ Cls2 == Class("t", <<"p/A", "p/B">>, <<M("y:I", 1), M("z:I", 0)>>, <<M("<init>:(
 Pool == <<"net/minecraft/A.class", "com/lib/B.class", "C.class", "net/minecraftx/D.class",
           "assets/r.txt", "com/lib/r.txt", "META-INF/MANIFEST.MF", "META-INF/S.SF", "META-INF/S.RSA",
           "META-INF/S.DSA", "META-INF/services/x", "META-INF/sub/T.SF", "r.SF", "net/minecraft/", "com/lib/">>
-TriplePool == {1, 2, 3, 5, 7, 8, 10, 11, 14}
+TriplePool == {1, 2, 3, 4, 5, 7, 8, 9, 10, 11, 14}
 Variants(n) == CASE KindOfName(n) = "dir" -> {Dir}
                  [] KindOfName(n) = "other" -> {Other("one"), Other("two")}
                  [] OTHER -> {Cls1, Cls2}
